@@ -124,6 +124,21 @@ def run(ctx):
     ctx.check("C15.position", fd, None, ok, "delete_at does not pass its index argument to deleteAt",
               expr="delete_at index", site="FuncDeleteAt.execute: lst.deleteAt(<index argument>)")
 
+    # ---------------------------------------------------------------- a character read is a new string value
+    from .C16 import shared_values
+    shared_values(ctx, model, "C15.position")
+    nd_ = model.method(P, "NodeDeref", "evaluate")
+    rets_ = [r for r in ast.walk(nd_.node) if isinstance(r, ast.Return) and r.value is not None
+             and any(isinstance(x, ast.Subscript) and norm(x.value) == "s" for x in ast.walk(r.value))]
+    for r in rets_:
+        ok = isinstance(r.value, ast.Call) and norm(r.value.func) == "ValueString"
+        ctx.check("C15.position", nd_, r, ok,
+                  f"indexing a string returns `{norm(r.value)[:50]}`, not a newly built ValueString: the character "
+                  f"value may be shared with other reads (element assignment changes strings in place)",
+                  site="NodeDeref.evaluate: s[i] -> ValueString(s[i]) built in the call")
+    if not rets_:
+        ctx.broken("NodeDeref.evaluate", "string element access not found")
+
     # ---------------------------------------------------------------- normalisation exactly once
     n_sites = 0
     for qual in (("NodeDeref", "evaluate"), ("NodeDerefAssign", "evaluate")):
